@@ -286,6 +286,8 @@ def run(ctx):
     ctx.assumptions = ["default usvg::Options (the elided rendering modes are the Options defaults)",
                        "equality of the re-parsed tree for structured content is validated by rendering, not proved"]
     broken = ctx.translate()
+    # the <defs> corollary (Proofs/DefsOnce.v) stands on C05's collectors: their tie (Gen/CollectTables.v, tools/gen_ids.py) is ours too
+    broken += [b for b in ctx.status.get('broken', []) if b not in broken and b.get('name') == 'tree.collect_loops']
     res = ctx.coq_props()
     proof_ok = res['ok'] and not broken
     ctx.coq_build(['Model/Corr.v', 'Model/WriteNum.v'])      # what the correspondence evaluations import
@@ -405,6 +407,72 @@ def run(ctx):
                           "prefix ++ id, exactly once)" % (lab, c07.wopts_str(w), '; '.join(probs[:3])),
                           dict(rep, problems=probs[:6], text=r['text'][:1500]))
     ctx.cov['id_once_cases'] = n_id
+
+    # ------------------------------------------------------------------ K: num-idem (C08_write_num_idempotent / C08_path_data_roundtrip /
+    # C08_transform_roundtrip on the real writer + parser): adversarial floats in path data and in a matrix, every interesting precision.
+    #   (i)  every number of the first written text is within 0.5 * 10^-min(p,12) (+ 2 f32 ulps) of the f32 value in the tree
+    #   (ii) the numbers of write(parse(write T)) and of the third write are those of the first (idempotence)
+    # Outside the model's idealisation (|x * 10^p| >= 2^24: f32 rounding inside write_num, class write-num-ulp F47) a failure of (ii) is
+    # that class; inside it is a violation.
+    ADV = [0.5, 1.5, 2.5, -0.5, -2.5, 0.05, 0.25, 0.0005, 0.0015, 1.0005, 0.000000005, 1e-7, 1e-9, -1e-9, 16777217.0, 8388607.5, -0.0, 1e-40,
+           1.4e-45, -1e-40, 0.1, 1.0 / 3, 123456.789, 105.5, 2147483648.0, 3e9, -3e9, 0.99999994, 1.0000001, 99999.9, 0.125, 7.0, -12.0, 0.3]
+    ADV += [c07.f32(rng.below(2000000) / 1000.0 - 1000.0) for _ in range(6)] + [c07.f32((rng.below(1 << 23) + 0.5) / float(1 << rng.below(24))) for _ in range(6)]
+    ncases = []
+    for v in ADV:
+        for prec in (8, 3, 0, 12, 1, 255, (8, 2), (1, 8)):
+            vs = repr(float(v))
+            doc = ('<svg %s width="100" height="100"><g transform="matrix(1 0 0 1 %s 3)"><path d="M %s 1 L 2 %s Q %s 3 4 5 C 1 2 %s 4 5 6 Z" '
+                   'stroke="black" stroke-dasharray="%s 3"/></g></svg>' % (NS, vs, vs, vs, vs, vs, repr(abs(float(v)) + 1.0)))
+            cp, tp = prec if isinstance(prec, tuple) else (prec, prec)
+            ncases.append((c07.f32(v), (cp, tp), doc, dict(cp=cp, tp=tp)))
+    nouts = ctx.rvh_batch(binp, 'c08-idem', ["-\t%s\t%s" % (c07.wopts_str(w), d) for v, prec, d, w in ncases])
+    num_re = re.compile(r'-?(?:\d+\.?\d*|\.\d+)(?:[eE][-+]?\d+)?|-?inf|NaN')
+
+    def written_numbers(text, attrs=('d', 'transform', 'stroke-dasharray')):
+        out = []
+        for m in re.finditer(r'\s(?:%s)="([^"]*)"' % '|'.join(attrs), text):
+            out += [float(t) for t in num_re.findall(m.group(1))]
+        return out
+    nhist = dict(cases=0, bound_ok=0, idempotent=0, textual_fixed=0, f47=0)
+    nv = 0
+    for (v, prec, d, w), o in zip(ncases, nouts):
+        r = jload(o)
+        rep = dict(doc=d, wopts=c07.wopts_str(w), op='c08-idem', value=v, precision=prec)
+        if 'w1' not in r or 'reparse' in r:
+            ctx.violation("num-idem: value %r at precision %r: the document does not survive the round trip: %s" % (v, prec, str(r)[:200]), rep)
+            continue
+        n1, n2, n3 = written_numbers(r['w1']), written_numbers(r['w2']), written_numbers(r['w3'])
+        nhist['cases'] += 1
+        ctx.note_case("num-idem/%r/%r" % (v, prec), nontrivial=len(n1) > 0 and v != int(v))
+        # (i) the occurrences of v: every written number that is not one of the fixed literals must be close to v (or |v| + 1: dash array)
+        fixed = (0.0, 1.0, 2.0, 3.0, 4.0, 5.0, 6.0)      # the other numbers of the document: integers, written exactly at every precision
+        off = []
+        for attrs, pr in ((('d',), prec[0]), (('transform',), prec[1]), (('stroke-dasharray',), 12)):
+            bound = 0.5 * 10.0 ** (-min(pr, 12)) + 4 * abs(v) * 2.0 ** -23 + 1e-44
+            cand = [t for t in written_numbers(r['w1'], attrs) if t not in fixed]
+            off += [(t, bound) for t in cand if abs(t - v) > bound and abs(t - (abs(v) + 1.0)) > bound]
+        in_model = abs(v) * 10.0 ** min(max(prec), 12) < 2.0 ** 24
+        if off and nv < 4:
+            nv += 1
+            ctx.violation("num-idem: value %r at precisions (coordinates, transforms) = %r is written as %r: further than %.3g away "
+                          "(C08_path_data_roundtrip / C08_transform_roundtrip)" % (v, prec, off[0][0], off[0][1]), dict(rep, written=r['w1'][:800]))
+            continue
+        nhist['bound_ok'] += 1
+        nhist['textual_fixed'] += 1 if r['w2'] == r['w1'] else 0
+        if n2 == n1 and n3 == n2:
+            nhist['idempotent'] += 1
+            continue
+        text = ("num-idem: value %r at precision %r: the numbers written change in the %s write (%r -> %r); C08_write_num_idempotent says they do not"
+                % (v, prec, 'second' if n2 != n1 else 'third', [a for a, b in zip(n1, n2) if a != b][:3] if n2 != n1 else [a for a, b in zip(n2, n3) if a != b][:3],
+                   [b for a, b in zip(n1, n2) if a != b][:3] if n2 != n1 else [b for a, b in zip(n2, n3) if a != b][:3]))
+        if in_model:
+            if nv < 4:
+                nv += 1
+                ctx.violation(text, dict(rep, w1=r['w1'][:600], w2=r['w2'][:600]))
+        else:
+            nhist['f47'] += 1
+            ctx.known_or_violation('write-num-ulp', text, dict(rep, w1=r['w1'][:600], w2=r['w2'][:600]))
+    ctx.cov['num_idem'] = nhist
 
     # ------------------------------------------------------------------ S: round-trip rendering
     wit = sorted(os.path.join(WITNESS, f) for f in os.listdir(WITNESS) if f.endswith('.svg'))
